@@ -307,4 +307,101 @@ func engAlias(seed int64, tier string, _ []string, out *sx.Out) {
 		flush()
 		b.Shutdown()
 	}
+	aliasUnitStreams(rng, tier, out)
+}
+
+// aliasUnitStreams drives the exported alias tables directly with long sequences (pure computation):
+//
+//	(2 max goBad (seg ...))   OutboundTopicAliases.Set over 70 000 distinct topics (number i = topic "u/i")
+//	                          interleaved with re-uses of the earliest topics; seg = (0 from to): the fresh
+//	                          topics from..to were each answered (0, false); (1 i alias exists): one call.
+//	                          Calls near the boundaries 1..max+2 and 65530..65545, every re-use and every
+//	                          call not answered (0, false) are listed one by one; goBad = what the running
+//	                          receiver check below counted (an observation; the verdict is the Coq engine's)
+//	(3 smax ((id topic result) ...))   InboundTopicAliases.Set(id, topic) = result, topic 0 = ""
+func aliasUnitStreams(rng *rand.Rand, tier string, out *sx.Out) {
+	total := 70000
+	if tier == "thorough" {
+		total = 140000
+	}
+	for _, max := range []uint16{1, 2, 4} {
+		a := mqtt.NewOutboundTopicAliases(max)
+		segs := sx.L{}
+		runFrom, runTo := 0, -1
+		closeRun := func() {
+			if runTo >= runFrom && runFrom > 0 {
+				segs = append(segs, sx.L{sx.N(0), sx.N(uint64(runFrom)), sx.N(uint64(runTo))})
+			}
+			runFrom, runTo = 0, -1
+		}
+		recv := map[uint16]int{} // the receiver's table: alias -> topic number
+		goBad, singles := 0, 0
+		call := func(i int, fresh bool) {
+			alias, exists := a.Set(fmt.Sprintf("u/%d", i))
+			if alias > 0 { // the receiver's running check
+				if exists {
+					if t, ok := recv[alias]; !ok || t != i {
+						goBad++
+					}
+				} else {
+					recv[alias] = i
+				}
+				if alias > max {
+					goBad++
+				}
+			}
+			window := i <= int(max)+2 || (i >= 65530 && i <= 65545) || (i >= 131066 && i <= 131081)
+			if fresh && !window && alias == 0 && !exists {
+				if runFrom == 0 {
+					runFrom = i
+				}
+				runTo = i
+				return
+			}
+			closeRun()
+			if singles < 600 { // a broken table could answer thousands of calls with an alias: the first ones decide
+				segs = append(segs, sx.L{sx.N(1), sx.N(uint64(i)), sx.N(uint64(alias)), sx.Bool(exists)})
+			}
+			singles++
+		}
+		for i := 1; i <= total && singles < 600; i++ {
+			call(i, true)
+			if i%997 == 0 || (i >= 65536 && i <= 65545) || (i >= 131072 && i <= 131081) || i == total { // re-use the earliest topics
+				for j := 1; j <= int(max)+1; j++ {
+					call(j, false)
+				}
+			}
+		}
+		closeRun()
+		out.Case(sx.L{sx.N(2), sx.N(uint64(max)), sx.N(uint64(goBad)), segs})
+	}
+	for _, smax := range []uint16{1, 2, 5} {
+		a := mqtt.NewInboundTopicAliases(smax)
+		calls := sx.L{}
+		n := 1200
+		for k := 0; k < n; k++ {
+			id := uint16(1 + rng.Intn(int(smax)+1))
+			if rng.Intn(20) == 0 {
+				id = 65535
+			}
+			ti := 0
+			if rng.Intn(2) == 0 {
+				ti = 1 + rng.Intn(5)
+			}
+			topic := ""
+			if ti > 0 {
+				topic = fmt.Sprintf("u/%d", ti)
+			}
+			res := a.Set(id, topic)
+			ri := 0
+			if res != "" {
+				_, _ = fmt.Sscanf(res, "u/%d", &ri)
+				if ri == 0 {
+					ri = 999 // not a topic this stream ever used
+				}
+			}
+			calls = append(calls, sx.L{sx.N(uint64(id)), sx.N(uint64(ti)), sx.N(uint64(ri))})
+		}
+		out.Case(sx.L{sx.N(3), sx.N(uint64(smax)), calls})
+	}
 }
